@@ -9,6 +9,7 @@ package c10
 import (
 	"bytes"
 	"context"
+	"errors"
 	"fmt"
 	"hash/fnv"
 	"io"
@@ -24,6 +25,7 @@ import (
 	"github.com/ipfs/boxo/ipld/unixfs/importer/trickle"
 	uio "github.com/ipfs/boxo/ipld/unixfs/io"
 	"github.com/ipfs/boxo/ipld/unixfs/mod"
+	"github.com/ipfs/boxo/verifcid"
 	cid "github.com/ipfs/go-cid"
 	ipld "github.com/ipfs/go-ipld-format"
 	mh "github.com/multiformats/go-multihash"
@@ -88,7 +90,21 @@ func buildInitial(ctx context.Context, c *config, ds ipld.DAGService) (ipld.Node
 	return trickle.Layout(db)
 }
 
+// lastErrs collects the texts of the errors seen (diagnostics for the replay test only);
+// sawDigestTooLarge records that an error wrapping verifcid.ErrDigestTooLarge was returned
+// (the signature of finding C10-7), reset by runHistory.
+var (
+	lastErrs          []string
+	sawDigestTooLarge bool
+)
+
 func errClass(err error) string {
+	if err != nil && err != io.EOF {
+		lastErrs = append(lastErrs, err.Error())
+		if errors.Is(err, verifcid.ErrDigestTooLarge) {
+			sawDigestTooLarge = true
+		}
+	}
 	switch err {
 	case nil:
 		return "ENone"
@@ -138,17 +154,23 @@ func checkDag(ctx context.Context, nd ipld.Node, ds ipld.DAGService) (uint64, st
 
 // runHistory executes the ops on the real DagModifier; it returns the executed prefix of
 // ops, the Coq observations and Go-side oracle failures.
-func runHistory(e *vh.Env, c *config, ops []op) (done []op, obs []string, oracle []string) {
+func runHistory(e *vh.Env, c *config, ops []op) (done []op, obs []string, oracle []string, inlineRoot bool) {
 	ctx, cancel := context.WithCancel(context.Background())
 	defer cancel()
+	sawDigestTooLarge = false
 	ds := mdagmock.Mock()
 	nd, err := buildInitial(ctx, c, ds)
 	if err != nil {
-		return nil, nil, []string{"initial import failed: " + err.Error()}
+		return nil, nil, []string{"initial import failed: " + err.Error()}, false
+	}
+	if pn, ok := nd.(*mdag.ProtoNode); ok && len(pn.Links()) == 0 {
+		if fsn, err := ft.FSNodeFromBytes(pn.Data()); err == nil && len(fsn.Data()) > 0 {
+			inlineRoot = true // the root is a dag-pb leaf that holds file data itself
+		}
 	}
 	dm, err := mod.NewDagModifier(ctx, nd, ds, sizeSplitter(c.ModChunk))
 	if err != nil {
-		return nil, nil, []string{"NewDagModifier failed: " + err.Error()}
+		return nil, nil, []string{"NewDagModifier failed: " + err.Error()}, inlineRoot
 	}
 	dm.MaxLinks = c.ModWidth
 	if c.ModRaw >= 0 {
@@ -194,17 +216,17 @@ func runHistory(e *vh.Env, c *config, ops []op) (done []op, obs []string, oracle
 			case "getnode":
 				nd, err := dm.GetNode()
 				if err != nil {
-					ob = vh.App("BErr", "EOther")
+					ob = vh.App("BErr", errClass(err))
 					return
 				}
 				dr, err := uio.NewDagReader(ctx, nd, ds)
 				if err != nil {
-					ob = vh.App("BErr", "EOther")
+					ob = vh.App("BErr", errClass(err))
 					return
 				}
 				content, err := io.ReadAll(dr)
 				if err != nil {
-					ob = vh.App("BErr", "EOther")
+					ob = vh.App("BErr", errClass(err))
 					return
 				}
 				ob = vh.App("BNode", vh.Bytes(content), vh.ZU(dr.Size()))
@@ -234,7 +256,7 @@ func runHistory(e *vh.Env, c *config, ops []op) (done []op, obs []string, oracle
 			break
 		}
 	}
-	return done, obs, oracle
+	return done, obs, oracle, inlineRoot
 }
 
 func (o op) coq() string {
@@ -334,10 +356,9 @@ func genConfig(e *vh.Env) *config {
 		c.InitChunk = []int{64, 100, 512}[r.Intn(3)]
 	}
 	c.InitWidth = 2 + r.Intn(7)
-	c.ModWidth = 2 + r.Intn(7)
-	if r.Intn(3) == 0 {
-		c.ModWidth = c.InitWidth
-	}
+	// the modifier appends with trickle.Append, which interprets the existing DAG by its
+	// own MaxLinks: the width the file was built with (assumption of the check)
+	c.ModWidth = c.InitWidth
 	c.Prefix = []string{"v0", "v0", "v1", "v1", "blake"}[r.Intn(5)]
 	c.InitRaw = c.Prefix != "v0" || r.Intn(3) == 0
 	c.Layout = "trickle"
@@ -483,6 +504,53 @@ func genOps(e *vh.Env, c *config) []op {
 	return append(ops, op{Kind: "getnode"})
 }
 
+// growsFile tells whether the history extends the file past its current end at some point
+// (sizes and positions of the byte-array file; only used for the signature of finding C10-8).
+func growsFile(size0 int, ops []op) bool {
+	size, pos := int64(size0), int64(0)
+	grown := false
+	grow := func(to int64) {
+		if to > size {
+			size, grown = to, true
+		}
+	}
+	for _, o := range ops {
+		switch o.Kind {
+		case "write":
+			pos += int64(len(o.Data))
+			grow(pos)
+		case "writeat":
+			pos = o.Off + int64(len(o.Data))
+			grow(pos)
+		case "seek":
+			t := int64(-1)
+			switch o.Whence {
+			case 0:
+				t = o.Off
+			case 1:
+				t = pos + o.Off
+			case 2:
+				t = size + o.Off
+			}
+			if t >= 0 {
+				pos = t
+				grow(pos)
+			}
+		case "read", "ctxread":
+			if rest := size - pos; rest > 0 {
+				pos += min(rest, int64(o.N))
+			}
+		case "truncate":
+			if o.Off > size {
+				grow(o.Off)
+			} else {
+				size = o.Off
+			}
+		}
+	}
+	return grown
+}
+
 func b(s string) []byte { return []byte(s) }
 
 // hand-written corpus: the witnesses of the six findings, each on a single-leaf and a
@@ -560,8 +628,15 @@ func TestC10(t *testing.T) {
 		c := genConfig(e)
 		jobs = append(jobs, job{c, genOps(e, c)})
 	}
+	var prefIdx []string
+	for k := 1; k <= 6; k++ {
+		if e.Known[fmt.Sprintf("C10-%d", k)] {
+			prefIdx = append(prefIdx, vh.N(uint64(k)))
+		}
+	}
+	pref := vh.List(prefIdx)
 	for _, j := range jobs {
-		done, obs, oracle := runHistory(e, j.c, j.ops)
+		done, obs, oracle, inlineRoot := runHistory(e, j.c, j.ops)
 		rp := map[string]any{"config": j.c, "ops": done}
 		for _, msg := range oracle {
 			st.Violate(msg, "", rp)
@@ -569,7 +644,16 @@ func TestC10(t *testing.T) {
 		if done == nil {
 			continue
 		}
-		term := vh.App("Build_case", vh.Bytes(j.c.Init), vh.ListOf(done, func(o op) string { return o.coq() }), vh.List(obs))
+		hint := 0
+		if inlineRoot && growsFile(len(j.c.Init), done) {
+			hint = 8
+			st.Count("signature:C10-8 (inline-data root grown)")
+		} else if j.c.Prefix == "identity" && sawDigestTooLarge {
+			hint = 7
+			st.Count("signature:C10-7 (identity digest too large)")
+		}
+		term := vh.App("Build_case", vh.Bytes(j.c.Init), vh.ListOf(done, func(o op) string { return o.coq() }), vh.List(obs),
+			vh.N(uint64(hint)), pref)
 		cs.Add(term, rp)
 		writes, others := 0, 0
 		for _, o := range done {
